@@ -65,6 +65,8 @@ def decode_value(v):
             return MyInt(v[2])
         if kind == "myfloat":
             return MyFloat(v[2])
+        if kind == "myfloat-special":
+            return MyFloat(float(v[2]))
         if kind == "tuple":
             return tuple(decode_value(x) for x in v[2])
         if kind == "list":
@@ -287,7 +289,7 @@ def strategies():
     simple = st.one_of(key, key, st.integers(-10 ** 6, 10 ** 20), st.floats(allow_nan=False, allow_infinity=False), st.integers(0, 9).map(lambda i: ["@", "myint", i]),
                        st.floats(-5, 5).map(lambda f: ["@", "myfloat", f]))
     badv = st.sampled_from([["@", "bool", 1], ["@", "bool", 0], ["@", "none"], ["@", "nan"], ["@", "inf"], ["@", "-inf"], ["@", "bytes", "x"], ["@", "bytearray", "x"],
-                            ["@", "memoryview", "x"], ["@", "object"]])
+                            ["@", "memoryview", "x"], ["@", "object"], ["@", "myfloat-special", "nan"], ["@", "myfloat-special", "inf"], ["@", "myfloat-special", "-inf"]])
     seqv = st.one_of(st.lists(simple, max_size=3).map(lambda xs: ["@", "list", xs]), st.lists(simple, max_size=3).map(lambda xs: ["@", "tuple", xs]),
                      st.lists(st.one_of(simple, badv), min_size=1, max_size=3).map(lambda xs: ["@", "list", xs]), st.just(["@", "list", [["@", "nested"]]]))
     value = st.one_of(simple, simple, simple, seqv, badv)
